@@ -20,6 +20,10 @@ pub struct MacroInv {
     /// 0..=3 key => value tags
     pub tags: Vec<(String, String)>,
     pub sink: SinkOut,
+    /// the value argument expression panics (a user panic, caught by the caller):
+    /// nothing is sent, and later macro invocations on this thread must be unaffected
+    #[serde(default)]
+    pub arg_panics: bool,
 }
 
 #[derive(Serialize, Deserialize, Clone, Debug)]
@@ -77,6 +81,19 @@ fn once<T>(c: &Cell<u32>, v: T) -> T {
     v
 }
 
+thread_local! {
+    static ARG_PANICS: Cell<bool> = const { Cell::new(false) };
+}
+
+/// like `once`, for the value argument: panics (harness panic) when the case says so
+fn once_val<T>(c: &Cell<u32>, v: T) -> T {
+    c.set(c.get() + 1);
+    if ARG_PANICS.with(|f| f.get()) {
+        panic!("{} (macro argument expression)", util::HARNESS_PANIC);
+    }
+    v
+}
+
 /// static call sites: one per (macro x value type x tag count)
 macro_rules! site {
     ($mac:ident, $key:expr, $val:expr, $tags:expr, $cnt:expr) => {{
@@ -84,19 +101,19 @@ macro_rules! site {
         let cnt: &Vec<Cell<u32>> = $cnt;
         match tags.len() {
             0 => {
-                cadence_macros::$mac!(once(&cnt[0], $key), once(&cnt[1], $val));
+                cadence_macros::$mac!(once(&cnt[0], $key), once_val(&cnt[1], $val));
             }
             1 => {
                 cadence_macros::$mac!(
                     once(&cnt[0], $key),
-                    once(&cnt[1], $val),
+                    once_val(&cnt[1], $val),
                     once(&cnt[2], tags[0].0.as_str()) => once(&cnt[3], tags[0].1.as_str())
                 );
             }
             2 => {
                 cadence_macros::$mac!(
                     once(&cnt[0], $key),
-                    once(&cnt[1], $val),
+                    once_val(&cnt[1], $val),
                     once(&cnt[2], tags[0].0.as_str()) => once(&cnt[3], tags[0].1.as_str()),
                     once(&cnt[4], tags[1].0.as_str()) => once(&cnt[5], tags[1].1.as_str())
                 );
@@ -104,7 +121,7 @@ macro_rules! site {
             _ => {
                 cadence_macros::$mac!(
                     once(&cnt[0], $key),
-                    once(&cnt[1], $val),
+                    once_val(&cnt[1], $val),
                     once(&cnt[2], tags[0].0.as_str()) => once(&cnt[3], tags[0].1.as_str()),
                     once(&cnt[4], tags[1].0.as_str()) => once(&cnt[5], tags[1].1.as_str()),
                     once(&cnt[6], tags[2].0.as_str()) => once(&cnt[7], tags[2].1.as_str())
@@ -210,7 +227,10 @@ pub fn child_main() -> i32 {
         let mut o = InvObs::default();
         let cnt: Vec<Cell<u32>> = (0..8).map(|_| Cell::new(0)).collect();
         handle.arm(inv.sink, 2 * i as u64 + 1);
-        match util::catch(|| invoke_macro(inv, &cnt)) {
+        ARG_PANICS.with(|f| f.set(inv.arg_panics));
+        let r = util::catch(|| invoke_macro(inv, &cnt));
+        ARG_PANICS.with(|f| f.set(false));
+        match r {
             Ok(Ok(())) => {}
             Ok(Err(m)) => {
                 eprintln!("{}", m);
@@ -222,7 +242,7 @@ pub fn child_main() -> i32 {
         o.macro_emitted = em;
         o.macro_handler = hl.iter().map(SerErr::from).collect();
         o.arg_counts = cnt.iter().take(2 + 2 * inv.tags.len().min(3)).map(|c| c.get()).collect();
-        if is_set_now {
+        if is_set_now && !inv.arg_panics {
             handle.arm(inv.sink, 2 * i as u64 + 2);
             match util::catch(|| invoke_chain(inv)) {
                 Ok(Ok(())) => {}
@@ -308,6 +328,17 @@ pub fn judge(case: &MacroCase, obs: &ChildObs) -> Vec<String> {
             }
             Some(c) => c,
         };
+        if inv.arg_panics {
+            // the user's argument expression panicked: that panic propagates, nothing is sent
+            match &o.macro_panic {
+                Some(p) if p.contains(util::HARNESS_PANIC) => {}
+                other => bad.push(format!("invocation #{}: the value expression panicked but the macro reported {:?}", i, other)),
+            }
+            if !o.macro_emitted.is_empty() {
+                bad.push(format!("invocation #{}: something was sent although the value expression panicked: {:?}", i, o.macro_emitted));
+            }
+            continue;
+        }
         if let Some(p) = &o.macro_panic {
             bad.push(format!("invocation #{} ({:?}): macro panicked although the global client is set: {}", i, inv.entry, p));
             continue;
@@ -406,7 +437,18 @@ pub fn macro_case() -> BoxedStrategy<MacroCase> {
                 sink_out(3),
             )
         })
-        .prop_map(|(entry, val, key, tags, sink)| MacroInv { entry, val, key, tags, sink });
+        .prop_map(|(entry, val, key, tags, sink)| MacroInv {
+            entry,
+            val,
+            key,
+            tags,
+            sink,
+            arg_panics: false,
+        });
+    let inv = (inv, prop::bool::weighted(0.06)).prop_map(|(mut i, p)| {
+        i.arg_panics = p;
+        i
+    });
     (
         prop::option::weighted(0.9, cfg_strategy(4)),
         prop::bool::weighted(0.3),
